@@ -86,6 +86,12 @@ func CheckC03(sc Scenario, rec *Rec) error {
 			if n := len(pop.Innovations()); n != 0 {
 				return fmt.Errorf("%d innovations are still recorded after the generation ended", n)
 			}
+			for _, o := range pop.Organisms {
+				if len(o.Genotype.ControlGenes) > 0 {
+					rec.Class("population with modular genomes")
+					break
+				}
+			}
 			grew := led.maxInnov > prevInnov
 			pairs := map[[2]int]int{}
 			for _, o := range pop.Organisms {
@@ -115,7 +121,7 @@ func CheckC03(sc Scenario, rec *Rec) error {
 }
 
 func TestC03(t *testing.T) {
-	runProp(t, "C03", "epochs", 400, 8000, genScenario(ScenarioCfg{MaxEpochs: pick(20, 50), Structural: true, Parallel: 1}), CheckC03)
+	runProp(t, "C03", "epochs", 400, 8000, genScenario(ScenarioCfg{MaxEpochs: pick(20, 50), Structural: true, Parallel: 1, ModularStart: true}), CheckC03)
 }
 
 // operator histories: the harness controls the generation boundary, so identical innovations within a generation and
